@@ -170,19 +170,26 @@ def parseAtomSrc (s : List Char) : Option AtomSrc :=
 
 /-! ### templates -/
 
-/-- one entry of a slice: `a:b`, `a:`, `:b`, `:` or `n` (meaning `(n, n)`); anything else is refused -/
-def sliceEntry (cs : List Char) : Option (Option Nat × Option Nat) :=
+/-- one slice entry as `slice_value` receives it (`_part_dimension(slicing=True)`): the index `n`
+    or the range `a:b` with optional bounds — `[2:2]` is an empty range, `[2]` an index -/
+inductive SliceEntry where
+  | idx (n : Nat)
+  | range (a b : Option Nat)
+deriving Repr, DecidableEq
+
+/-- one entry of a slice: `a:b`, `a:`, `:b`, `:` (ranges) or `n` (index); anything else is refused -/
+def sliceEntry (cs : List Char) : Option SliceEntry :=
   if cs.contains ':' then
     let a := cs.takeWhile (· ≠ ':')
     let b := (cs.dropWhile (· ≠ ':')).drop 1
     if b.contains ':' then none
-    else some (if a.isEmpty then none else some (digitsVal a), if b.isEmpty then none else some (digitsVal b))
-  else if cs.isEmpty then none else some (some (digitsVal cs), some (digitsVal cs))
+    else some (.range (if a.isEmpty then none else some (digitsVal a)) (if b.isEmpty then none else some (digitsVal b)))
+  else if cs.isEmpty then none else some (.idx (digitsVal cs))
 
-/-- `[a:b,c]` directly after a reference (`Parser._part_dimension`): one `(min, max)` pair per
-    entry, `n` alone meaning `(n, n)`. `none` = no slice there.  The body is split at the commas
+/-- `[a:b,c]` directly after a reference (`Parser._part_dimension`): one `SliceEntry` per
+    entry. `none` = no slice there.  The body is split at the commas
     with the list splitter `List.splitOn` (same pieces as `str.split(",")`, empty ones included). -/
-def parseSlice (s : List Char) : Option (List (Option Nat × Option Nat) × List Char) :=
+def parseSlice (s : List Char) : Option (List SliceEntry × List Char) :=
   match s with
   | '[' :: t =>
     let body := t.takeWhile (fun c => c.isDigit ∨ c = ':' ∨ c = ',')
@@ -210,7 +217,7 @@ def parseFormat (s : List Char) : Option (List Char × List Char) :=
 /-- One piece of a template result. -/
 inductive Piece where
   | text (c : Char)
-  | hole (path : List Char) (slice : Option (List (Option Nat × Option Nat))) (fmt : Option (List Char))
+  | hole (path : List Char) (slice : Option (List SliceEntry)) (fmt : Option (List Char))
   | raise                                        -- `p.ccode[0]` on an empty rest: IndexError
 deriving Repr, DecidableEq
 
@@ -253,7 +260,7 @@ def scanTemplate : Nat → List Char → List Piece
 
 /-- The slice entries as the solver passes them to `slice_value`, the format as it is put into
     `"{0" + fmt + "}"`. -/
-abbrev HoleFn := List Char → Option (List (Option Nat × Option Nat)) → Option (List Char) → Option (List Char)
+abbrev HoleFn := List Char → Option (List SliceEntry) → Option (List Char) → Option (List Char)
 
 /-- `TemplateSolver.solve`, output side: copied characters and, for every hole, the characters of
     `("{0"+fmt+"}").format(v)` / `str(v)` where `v` is the requested node's (sliced) value — the
